@@ -172,9 +172,12 @@ const FUNCS: &[&str] = &[
 ];
 const NAMES: &[&str] = &[
     "TAXES2021", "rate_2020", "Q1.2021", "XFE123", "ZZZ99999", "A1048577", "A0", "tax", "données", "日本", "Größe2", "_x1",
-    "A1B", "R1C1", "1E5", "2A1", "A00000001", "ABCD01", "A1_", "A.1", "TAX_2021", "x", "é1", "A1é", "ABCD1", "A12345678", "$A", "A$", "$1", "A$$1", "$$A1", "TRUE",
+    "A1B", "R1C1", "1E5", "2A1", "A00000001", "ABCD01", "A1_", "A.1",
+    // non-ASCII characters that are neither letters nor digits (combining marks of NFD spellings, Thai tone marks,
+    // symbols) belong to the identifier like every non-ASCII character: cell-like ASCII text after them is not a cell
+    "cafe\u{301}Q1", "e\u{301}B2", "re\u{301}sume\u{301}2021", "n\u{303}A1", "\u{e01}\u{e48}A1", "\u{e19}\u{e49}\u{e33}B12", "x€B2", "Δ\u{301}C3", "a\u{200d}D4", "№A7", "TAX_2021", "x", "é1", "A1é", "ABCD1", "A12345678", "$A", "A$", "$1", "A$$1", "$$A1", "TRUE",
 ];
-const SHEETS_PLAIN: &[&str] = &["Sheet1", "AB1", "Données", "Feuil2", "X1", "data", "A1", "S_1", "表1"];
+const SHEETS_PLAIN: &[&str] = &["Sheet1", "AB1", "Données", "Feuil2", "X1", "data", "A1", "S_1", "表1", "Donne\u{301}esQ1", "\u{e01}\u{e48}B2"];
 const SHEETS_QUOTED: &[&str] = &["My Sheet1", "A1", "B2:C3", "a\"b", "Feuille d été", "X+1", "(A1)", "", "2021", "LOG10(A1)"];
 const STRINGS: &[&str] = &["", "a", "A1", "$B$2 + C3", "é A1", "it's", "LOG10(A1)", "x'y'z", "日本A1", "A1:B2", " ", "(", "'", "Sheet1!A1", "AB1!"];
 const NUMS: &[&str] = &["1", "10", "1.5", "0.25", "100", "2021", "3.", "7", "1048576"];
@@ -567,7 +570,8 @@ fn items_wire(items: &[Item]) -> String {
 
 /// the xlsx file of a description (cells in document order = row-major) and the XML events of its worksheet
 /// part in the drivers' wire form (`None` when the sheet had to be written as raw XML)
-fn build_file(items: &[Item], layout_seed: u64, stream: bool) -> (Vec<u8>, Option<String>) {
+fn build_file(items: &[Item], lay: Lay) -> (Vec<u8>, Option<String>) {
+    let (layout_seed, stream) = (lay.seed, lay.stream);
     let mut sh = XlsxSheet::new("S");
     for it in items {
         let (r, c) = it.pos();
@@ -583,7 +587,10 @@ fn build_file(items: &[Item], layout_seed: u64, stream: bool) -> (Vec<u8>, Optio
         sh.set(r, c, cell);
     }
     let mut hand_events: Option<Vec<Ev>> = None;
-    if stream || items.iter().any(|i| matches!(i, Item::NoSi { .. })) {
+    for m in lay.merges(items) {
+        sh.merges.push(((m.0, m.1), (m.2, m.3)));
+    }
+    if stream || lay.zeros || items.iter().any(|i| matches!(i, Item::NoSi { .. })) {
         // written by hand, as events: `<f t="shared"/>` without `si` cannot be expressed by the writer, and in
         // stream mode the cells are written in the order of `items`: consecutive cells of one row form one `<row r>`
         // element, so a row may come in several fragments and rows in any order (every cell carries its `r`)
@@ -606,7 +613,7 @@ fn build_file(items: &[Item], layout_seed: u64, stream: bool) -> (Vec<u8>, Optio
             evs.push(start("c", &[("r", &a1(r, c))]));
             match it {
                 Item::Master { si, rect, toks, .. } => {
-                    evs.push(start("f", &[("t", "shared"), ("ref", &rect_text(*rect)), ("si", &si.to_string())]));
+                    evs.push(start("f", &[("t", "shared"), ("ref", &rect_text(*rect)), ("si", &lay.si_text(*si, r, c, true))]));
                     evs.push(text(&render(toks)));
                     evs.push(end("f"));
                 }
@@ -616,7 +623,7 @@ fn build_file(items: &[Item], layout_seed: u64, stream: bool) -> (Vec<u8>, Optio
                     evs.push(end("f"));
                 }
                 Item::Child { si, .. } => {
-                    evs.push(start("f", &[("t", "shared"), ("si", &si.to_string())]));
+                    evs.push(start("f", &[("t", "shared"), ("si", &lay.si_text(*si, r, c, false))]));
                     evs.push(end("f"));
                 }
                 Item::Plain { toks, .. } => {
@@ -639,6 +646,15 @@ fn build_file(items: &[Item], layout_seed: u64, stream: bool) -> (Vec<u8>, Optio
             evs.push(end("row"));
         }
         evs.push(end("sheetData"));
+        let merges = lay.merges(items);
+        if !merges.is_empty() {
+            evs.push(start("mergeCells", &[("count", &merges.len().to_string())]));
+            for m in &merges {
+                evs.push(start("mergeCell", &[("ref", &rect_text(*m))]));
+                evs.push(end("mergeCell"));
+            }
+            evs.push(end("mergeCells"));
+        }
         evs.push(end("worksheet"));
         let mut k = 0u32;
         sh.raw_xml = Some(verif_harness::xlsxw::serialize(&evs, || {
@@ -682,32 +698,77 @@ struct Lay {
     /// the items are in STREAM order and are written in that order (row fragments, rows out of order); otherwise
     /// the sheet is written row-major
     stream: bool,
+    /// the `si` attributes are written with 0–2 leading zeros chosen per cell (`si="1"` on the master, `si="001"` on
+    /// a member …): xsd:unsignedInt lexical forms of the same index
+    zeros: bool,
+    /// the declared range of the first groups is also written as a `<mergeCell>` region (it then lies over members)
+    merge: bool,
+    /// reader calls made before `worksheet_formula`: bit 0 `load_merged_regions()`, bit 1 `load_tables()`.
+    /// Pinned: `worksheet_formula` does not depend on them (nor on the header-row option).
+    pre: u8,
 }
 
 impl Lay {
     fn plain() -> Lay {
-        Lay { seed: 0, header: None, stream: false }
+        Lay { seed: 0, header: None, stream: false, zeros: false, merge: false, pre: 0 }
     }
+    /// `<seed>[h<n>][p<bits>][s][z][m]`
     fn wire(&self) -> String {
-        let base = match self.header {
-            Some(h) => format!("{}h{}", self.seed, h),
-            None => self.seed.to_string(),
-        };
-        if self.stream {
-            base + "s"
-        } else {
-            base
+        let mut w = self.seed.to_string();
+        if let Some(h) = self.header {
+            w.push_str(&format!("h{h}"));
         }
+        if self.pre != 0 {
+            w.push_str(&format!("p{}", self.pre));
+        }
+        if self.stream {
+            w.push('s');
+        }
+        if self.zeros {
+            w.push('z');
+        }
+        if self.merge {
+            w.push('m');
+        }
+        w
     }
     fn parse(s: &str) -> Lay {
-        let (s, stream) = match s.strip_suffix('s') {
-            Some(x) => (x, true),
-            None => (s, false),
-        };
-        match s.split_once('h') {
-            Some((a, b)) => Lay { seed: a.parse().unwrap(), header: Some(b.parse().unwrap()), stream },
-            None => Lay { seed: s.parse().unwrap(), header: None, stream },
+        let mut l = Lay::plain();
+        let mut s = s.to_string();
+        while let Some(c) = s.chars().last() {
+            match c {
+                's' => l.stream = true,
+                'z' => l.zeros = true,
+                'm' => l.merge = true,
+                _ => break,
+            }
+            s.pop();
         }
+        if let Some((a, b)) = s.clone().split_once('p') {
+            l.pre = b.parse().unwrap();
+            s = a.to_string();
+        }
+        if let Some((a, b)) = s.clone().split_once('h') {
+            l.header = Some(b.parse().unwrap());
+            s = a.to_string();
+        }
+        l.seed = s.parse().unwrap();
+        l
+    }
+    /// number of leading zeros of the `si` written in the cell at (r, c)
+    fn si_text(&self, si: u32, r: u32, c: u32, master: bool) -> String {
+        let k = if !self.zeros { 0 } else if master { (r as usize * 7 + c as usize) % 2 } else { (r as usize + 2 * c as usize + 1) % 3 };
+        format!("{}{}", "0".repeat(k), si)
+    }
+    /// the `<mergeCell>` regions written when `merge` is set: the declared ranges (≥ 2 cells) of the first 3 groups
+    fn merges(&self, items: &[Item]) -> Vec<(u32, u32, u32, u32)> {
+        if !self.merge {
+            return vec![];
+        }
+        items.iter().filter_map(|i| match i {
+            Item::Master { rect, .. } if (rect.0, rect.1) != (rect.2, rect.3) => Some(*rect),
+            _ => None,
+        }).take(3).collect()
     }
 }
 
@@ -721,9 +782,17 @@ fn show_cells(r: &Result<Cells, String>) -> String {
     }
 }
 
-fn impl_file(bytes: &[u8], header: Option<u32>) -> Result<Cells, String> {
+fn impl_file(bytes: &[u8], lay: Lay) -> Result<Cells, String> {
+    let header = lay.header;
     let res = guarded(|| -> Result<Cells, String> {
         let mut wb: Xlsx<_> = Xlsx::new(Cursor::new(bytes.to_vec())).map_err(|e| format!("open:{e}"))?;
+        // the history before `worksheet_formula`
+        if lay.pre & 1 != 0 {
+            wb.load_merged_regions().map_err(|_| "err:load_merged_regions".to_string())?;
+        }
+        if lay.pre & 2 != 0 {
+            wb.load_tables().map_err(|_| "err:load_tables".to_string())?;
+        }
         if let Some(h) = header {
             wb.with_header_row(calamine::HeaderRow::Row(h));
         }
@@ -925,11 +994,11 @@ fn file_sig(items: &[Item], imp: &Result<Cells, String>, want: &Cells) -> String
 }
 
 fn run_file(items: &[Item], lay: Lay, drv: &mut Driver) -> FileOut {
-    let (bytes, wire) = build_file(items, lay.seed, lay.stream);
+    let (bytes, wire) = build_file(items, lay);
     let imp = if has_huge_si(items) {
         impl_file_child(items, lay)
     } else {
-        impl_file(&bytes, lay.header)
+        impl_file(&bytes, lay)
     };
     // the model reads the XML events that were written (event-level model of `next_formula`); the abstract
     // cell-list model (`sheet`) must agree with it (theorem `texts_spec` / `sheet_events_exact`)
@@ -948,11 +1017,20 @@ fn run_file(items: &[Item], lay: Lay, drv: &mut Driver) -> FileOut {
     let mut fails = vec![];
     // a result that is right on a freshly opened workbook and wrong after `with_header_row` gets its own class
     let header_dependent = |imp: &Result<Cells, String>, reference: &Cells| -> bool {
-        lay.header.is_some() && !has_huge_si(items) && imp.as_ref().ok() != Some(reference) && impl_file(&bytes, None).as_ref().ok() == Some(reference)
+        (lay.header.is_some() || lay.pre != 0) && !has_huge_si(items) && imp.as_ref().ok() != Some(reference) && impl_file(&bytes, Lay { header: None, pre: 0, ..lay }).as_ref().ok() == Some(reference)
+    };
+    // … and one that is right when every cell spells the index alike and wrong with leading zeros
+    let spelling_dependent = |imp: &Result<Cells, String>, reference: &Cells| -> bool {
+        lay.zeros && !has_huge_si(items) && imp.as_ref().ok() != Some(reference) && {
+            let l2 = Lay { zeros: false, ..lay };
+            impl_file(&build_file(items, l2).0, l2).as_ref().ok() == Some(reference)
+        }
     };
     if let Some(w) = &want {
         if imp.as_ref().ok() != Some(w) {
-            let sig = if header_dependent(&imp, w) { "file:formulas_depend_on_header_row_option".to_string() } else { file_sig(items, &imp, w) };
+            let sig = if spelling_dependent(&imp, w) {
+                "file:si_spelled_differently_not_matched".to_string()
+            } else if header_dependent(&imp, w) { "file:formulas_depend_on_earlier_reader_calls".to_string() } else { file_sig(items, &imp, w) };
             fails.push(("impl_vs_spec".to_string(), sig));
         }
         if model.as_ref().ok() != Some(w) {
@@ -964,8 +1042,9 @@ fn run_file(items: &[Item], lay: Lay, drv: &mut Driver) -> FileOut {
     }
     if imp != model {
         let sig = match &want {
-            Some(w) if header_dependent(&imp, w) => "file:formulas_depend_on_header_row_option".to_string(),
-            None if model.as_ref().map(|m| header_dependent(&imp, m)).unwrap_or(false) => "file:formulas_depend_on_header_row_option".to_string(),
+            Some(w) if spelling_dependent(&imp, w) => "file:si_spelled_differently_not_matched".to_string(),
+            Some(w) if header_dependent(&imp, w) => "file:formulas_depend_on_earlier_reader_calls".to_string(),
+            None if model.as_ref().map(|m| header_dependent(&imp, m)).unwrap_or(false) => "file:formulas_depend_on_earlier_reader_calls".to_string(),
             Some(w) if imp.as_ref().ok() != Some(w) => file_sig(items, &imp, w),
             _ if has_huge_si(items) && matches!(&imp, Err(e) if e == "abort" || e == "timeout") => "file:si-huge-allocation".to_string(),
             _ => "file:impl_model_differ".to_string(),
@@ -1413,14 +1492,14 @@ fn corpus_files() -> Vec<(Lay, Vec<Item>)> {
             Item::Plain { r: 3, c: 2, toks: a1p1() },
         ]),
         // seeded change C15-m8: `worksheet_formula` must not depend on the header-row option
-        (Lay { seed: 0, header: Some(2), stream: false }, vec![
+        (Lay { seed: 0, header: Some(2), stream: false, ..Lay::plain() }, vec![
             Item::Plain { r: 0, c: 0, toks: a1p1() },
             Item::Master { r: 0, c: 1, si: 0, rect: (0, 1, 3, 1), toks: a1p1() },
             Item::Child { r: 1, c: 1, si: 0 },
             Item::Child { r: 2, c: 1, si: 0 },
             Item::Child { r: 3, c: 1, si: 0 },
         ]),
-        (Lay { seed: 0, header: Some(u32::MAX), stream: false }, vec![
+        (Lay { seed: 0, header: Some(u32::MAX), stream: false, ..Lay::plain() }, vec![
             Item::Master { r: 4, c: 1, si: 0, rect: (4, 1, 5, 2), toks: a1p1() },
             Item::Child { r: 5, c: 2, si: 0 },
         ]),
@@ -1467,11 +1546,38 @@ fn corpus_files() -> Vec<(Lay, Vec<Item>)> {
         (Lay::plain(), long_group('a', 8191, 0)),
         (Lay::plain(), long_group('a', 8192, 0)),
         // seeded change C15-m10: a row written as two `<row>` elements; stream order: masters, then members
-        (Lay { seed: 0, header: None, stream: true }, vec![
+        (Lay { seed: 0, header: None, stream: true, ..Lay::plain() }, vec![
             Item::Master { r: 0, c: 0, si: 0, rect: (0, 0, 0, 1), toks: a1p1() },
             Item::Master { r: 1, c: 0, si: 1, rect: (1, 0, 1, 1), toks: a1p1() },
             Item::Child { r: 1, c: 1, si: 1 },
             Item::Child { r: 0, c: 1, si: 0 },
+        ]),
+        // seeded change C15-m14: one index spelled `1` on the master and `01` / `001` on the members
+        (Lay { zeros: true, ..Lay::plain() }, vec![
+            Item::Master { r: 0, c: 1, si: 1, rect: (0, 1, 2, 2), toks: a1p1() },
+            Item::Child { r: 0, c: 2, si: 1 },
+            Item::Child { r: 1, c: 1, si: 1 },
+            Item::Child { r: 1, c: 2, si: 1 },
+            Item::Child { r: 2, c: 1, si: 1 },
+            Item::Child { r: 2, c: 2, si: 1 },
+        ]),
+        // seeded change C15-m16: the group's range is also a merged region, read after load_merged_regions()
+        (Lay { merge: true, pre: 1, ..Lay::plain() }, vec![
+            Item::Master { r: 0, c: 1, si: 0, rect: (0, 1, 1, 2), toks: a1p1() },
+            Item::Child { r: 0, c: 2, si: 0 },
+            Item::Child { r: 1, c: 1, si: 0 },
+            Item::Child { r: 1, c: 2, si: 0 },
+        ]),
+        (Lay { merge: true, pre: 3, header: Some(1), ..Lay::plain() }, vec![
+            Item::Master { r: 2, c: 0, si: 4, rect: (2, 0, 4, 0), toks: a1p1() },
+            Item::Child { r: 3, c: 0, si: 4 },
+            Item::Child { r: 4, c: 0, si: 4 },
+        ]),
+        // seeded change C15-m15 through a file: a name in decomposed form (e + U+0301) followed by cell-like text
+        (Lay::plain(), vec![
+            Item::Master { r: 0, c: 3, si: 0, rect: (0, 3, 2, 3), toks: vec![Tok::Ident("cafe\u{301}Q1".into()), Tok::Punct('*'), rf(false, 0, false, 0)] },
+            Item::Child { r: 1, c: 3, si: 0 },
+            Item::Child { r: 2, c: 3, si: 0 },
         ]),
     ]
 }
@@ -1484,7 +1590,7 @@ fn main() {
         let q: Vec<&str> = desc.splitn(2, ':').collect();
         let items: Vec<Item> = q[1].split('|').map(Item::parse).collect();
         let lay = Lay::parse(q[0]);
-        println!("{}", show_cells(&impl_file(&build_file(&items, lay.seed, lay.stream).0, lay.header)));
+        println!("{}", show_cells(&impl_file(&build_file(&items, lay).0, lay)));
         return;
     }
     let args = Args::parse();
@@ -1505,7 +1611,8 @@ fn main() {
          occasionally huge (up to 2^32-1; such files are read in a child process with a 15 s limit) or at/around powers of two \
          (15..65536 +-1), plus sheets with 1030-2100 two-cell groups numbered in sequence or shuffled; sheets whose rows come in two fragments or out of \
          order (every member still after its master in the stream), an si declared twice (the last declaration before a member counts), \
-         masters up to 8192 characters with 1- to 4-byte characters; half of the files are read after \
+         masters up to 8192 characters with 1- to 4-byte characters; one index written in different legal forms inside a group (leading zeros), \
+         declared ranges also written as merged regions; half of the files are read after load_merged_regions() / load_tables() and half after \
          with_header_row(Row(n)) (n above / inside / below the data: worksheet_formula must not depend on it), \
          cells of the range that are not members and cells outside carry values / own formulas / nothing; read with Xlsx::new + \
          worksheet_formula; the Lean model reads the XML events of the written worksheet part (xlsxw ev_wire) and is cross-checked \
@@ -1598,7 +1705,7 @@ fn main() {
         // the same kind of sheet with every row in two fragments / rows out of order (members follow later masters)
         let n2 = *sub.pick(&[130u32, 200, 300, 1100]);
         let items = many_groups_split(n2, base, k % 2 == 1, &mut sub);
-        file_case(&items, Lay { seed: 0, header: None, stream: true }, "many_groups_out_of_order", &mut drv, &mut rep, &mut shrunk);
+        file_case(&items, Lay { seed: 0, header: None, stream: true, ..Lay::plain() }, "many_groups_out_of_order", &mut drv, &mut rep, &mut shrunk);
     }
     let n_file = args.count(2_000, 200_000) / if args.n.is_some() { 10 } else { 1 };
     for _ in 0..n_file {
@@ -1646,8 +1753,13 @@ fn main() {
                 _ => *sub.pick(&[1u32, 5, 1_048_575, u32::MAX]),
             })
         };
-        let layout_seed = if stream { 0 } else { layout_seed };
-        file_case(&items, Lay { seed: layout_seed, header, stream }, class, &mut drv, &mut rep, &mut shrunk);
+        // legal spellings of one index inside a group (leading zeros), merged regions over the groups, and the
+        // reader calls made before `worksheet_formula`
+        let zeros = sub.chance(1, 6);
+        let merge = sub.chance(1, 4);
+        let pre = if sub.chance(1, 2) { 0 } else { sub.range(1, 3) as u8 };
+        let layout_seed = if stream || zeros { 0 } else { layout_seed };
+        file_case(&items, Lay { seed: layout_seed, header, stream, zeros, merge, pre }, class, &mut drv, &mut rep, &mut shrunk);
     }
     rep.add("driver_requests", drv.requests);
     rep.write(&args.out);
